@@ -207,7 +207,10 @@ class Extractor:
                 else:
                     items.append(Item("store", target=norm(t), expr=val, node=st))
                     if isinstance(t, ast.Attribute):
-                        env[norm(t)] = val      # later reads of self.f see the stored expression
+                        if isinstance(val, (ast.List, ast.Dict, ast.Set, ast.Call, ast.ListComp)) or (isinstance(val, ast.Constant) and val.value is None):
+                            env.pop(norm(t), None)      # mutable / opaque value: keep the field symbolic
+                        else:
+                            env[norm(t)] = val      # later reads of self.f see the stored expression
         elif isinstance(st, ast.AugAssign):
             val = self._expr_with_reads(st.value, env, items)
             if isinstance(st.target, ast.Name):
